@@ -102,6 +102,15 @@ static mjModel* make_model(unsigned long long seed, unsigned feat, int nb, int i
   m->opt.enableflags |= (enable & 0xFF);
   if ((enable >> 8) & 3) m->opt.solver = ((enable >> 8) & 3) - 1;      // bits 8-9: solver + 1
   if ((enable >> 10) & 3) m->opt.cone = ((enable >> 10) & 3) - 1;      // bits 10-11: cone + 1
+  if ((enable >> 12) & 3) m->opt.jacobian = ((enable >> 12) & 3) - 1;  // bits 12-13: jacobian + 1
+  {                                                                    // bits 14-17: a set of disable flags
+    static const int DIS[16] = {0, mjDSBL_WARMSTART, mjDSBL_ISLAND, mjDSBL_WARMSTART | mjDSBL_ISLAND, mjDSBL_REFSAFE,
+                                mjDSBL_EULERDAMP, mjDSBL_FRICTIONLOSS, mjDSBL_WARMSTART | mjDSBL_FILTERPARENT | mjDSBL_MIDPHASE,
+                                mjDSBL_LIMIT | mjDSBL_EQUALITY, mjDSBL_GRAVITY | mjDSBL_SPRING, mjDSBL_DAMPER, mjDSBL_CLAMPCTRL,
+                                mjDSBL_AUTORESET, mjDSBL_MULTICCD | mjDSBL_WARMSTART, mjDSBL_CONTACT, mjDSBL_ACTUATION};
+    m->opt.disableflags |= DIS[(enable >> 14) & 15];
+  }
+  if ((enable >> 18) & 1) m->opt.noslip_iterations = 3;                // bit 18: noslip post-processing
   return m;
 }
 static void base_state(const mjModel* m, mjData* d, unsigned long long seed) {
